@@ -10,6 +10,8 @@ oracle_c05 — line protocol (keys `k<n>`, values are naturals, clock in unix mi
   `tick <ms>`                                             → `ok`
   `fset <k> <v>` | `fget <k>`   (modes rds, both) a key of ANOTHER cache (other prefix, no expiry) on the same redis:
                    → `ok` | `val:<v>` | `notfound`; nothing this cache does (Clear included) touches it
+  `stress <mem|rds> <size≤64> <seed> <goroutines 1..32> <opsEach 1..5000> <keys 1..16>` racing callers on a fresh
+                   cache in a child process; every schedule must keep the property → `stress-ok`
   `race <k> <n>`   n concurrent remove-after-get readers of one key → `wins:<0|1>` (every schedule is a sequence
                    of critical sections, so at most the first reader in lock order succeeds)
 In mode `both` a result is `<mem> <rds>`. The configuration is the regenerated `Nv.Gen.C05.cfg`.
@@ -71,6 +73,13 @@ def step (s : OSt) (line : String) : OSt × String :=
     | some mode, some size, some dttl, some clock => (⟨mode, Sys.new clock size dttl, true, []⟩, "ok")
     | _, _, _, _ => ({ s with started := false }, "bad-op")
   | "new" :: _ => ({ s with started := false }, "bad-op")
+  | ["stress", b, size, seed, g, n, nk] =>
+    if !s.started then (s, "bad-op") else
+    match size.toNat?, seed.toNat?, g.toNat?, n.toNat?, nk.toNat? with
+    | some size, some seed, some g, some n, some nk =>
+      if (b == "mem" || b == "rds") && size ≤ 64 && seed ≤ 1099511627776 && 1 ≤ g && g ≤ 32 && 1 ≤ n && n ≤ 5000
+          && 1 ≤ nk && nk ≤ 16 then (s, "stress-ok") else (s, "bad-op")
+    | _, _, _, _, _ => (s, "bad-op")
   | ["fset", k, v] =>
     if !s.started || s.mode == .mem then (s, "bad-op") else
     match parseKey k, v.toNat? with
